@@ -225,6 +225,24 @@ def _run_P(case, seed, res, add, cur):
                     if abs(again[d][k] - vals[d][k]) > 1e-4 * max(1.0, abs(vals[d][k])):
                         add('cost-depends-on-weights-or-data', f'cost-depends-on-weights-or-data/pit/{k}',
                             f'masks {desc}: get_cost({k}) discrete={d} changed from {vals[d][k]} to {again[d][k]} after re-drawing the weights and a forward on other data')
+        # a function of the architecture only: a fresh twin with the same masks, metrics queried in the reverse order
+        if si % 16 == 1:
+            ctx2 = D.make_pit(prog, seed, fold_bn=fold, cost=dict(specs))
+            nas2 = ctx2['pit']
+            nas2.train()
+            els2 = _mask_elements(nas2)
+            with torch.no_grad():
+                for (p2, i2, _), v in zip(els2, st):
+                    p2[i2] = GRID[v]
+                for d in (True, False):
+                    nas2.discrete_cost = d
+                    for k in reversed(list(specs)):
+                        res['evals'] += 1
+                        o = float(nas2.get_cost(k))
+                        if abs(o - vals[d][k]) > 1e-4 * max(1.0, abs(vals[d][k])):
+                            add('cost-depends-on-query-history', f'cost-depends-on-query-history/pit/{k}',
+                                f'masks {desc}: get_cost({k}) discrete={d} = {vals[d][k]} on the explored model, {o} on a fresh model with the same masks '
+                                f'queried in the reverse order')
         # edges: raise one element one grid step
         for i in range(n):
             if st[i] + 1 >= G:
@@ -286,7 +304,7 @@ def _coef_states(shapes, tier):
     return out
 
 
-def _run_soft(case, seed, res, add, cur, nas, x, coef_params, specs, fam, temps_modes, set_opts):
+def _run_soft(case, seed, res, add, cur, nas, x, coef_params, specs, fam, temps_modes, set_opts, twin=None):
     nas_ids = {id(p) for p in nas.nas_parameters()}
     states = _coef_states([tuple(p.shape) for p in coef_params], case.get('tier', 'quick'))
     only = case.get('only')
@@ -325,6 +343,24 @@ def _run_soft(case, seed, res, add, cur, nas, x, coef_params, specs, fam, temps_
                     if gm.get(id(p)) is not None and not torch.isfinite(gm[id(p)]).all():
                         add('gradient-not-finite', f'gradient-not-finite/{fam}/{k}', f'{label}: non-finite gradient of get_cost({k}) w.r.t. a coefficient tensor')
                 grads[k] = gm
+            # a function of the architecture ONLY: a freshly built twin with the same coefficients and options, queried in the
+            # REVERSE metric order, must report the same values (no dependence on the history of cost queries)
+            if twin is not None and si % 4 == 1:
+                nas2, coefs2, set_opts2 = twin()
+                set_opts2(T, hard)
+                with torch.no_grad():
+                    for p2, v in zip(coefs2, st):
+                        p2.copy_(v)
+                    nas2.train()
+                    torch.manual_seed(5)
+                    nas2(x)
+                    other = {k: float(nas2.get_cost(k)) for k in reversed(list(specs))}
+                for k in specs:
+                    res['evals'] += 1
+                    if abs(other[k] - vals[k]) > 1e-4 * max(1.0, abs(vals[k])):
+                        add('cost-depends-on-query-history', f'cost-depends-on-query-history/{fam}/{k}',
+                            f'{label}: get_cost({k}) = {vals[k]} on the explored model but {other[k]} on a fresh model with the same coefficients whose '
+                            f'metrics are queried in the reverse order')
             # weight / data independence
             if si % 4 == 0:
                 sd = {nm: p.detach().clone() for nm, p in nas.named_parameters()}
@@ -379,8 +415,12 @@ def _run_S(case, seed, res, add, cur):
 
     def set_opts(T, hard):
         nas.update_softmax_options(temperature=T, hard=hard)
+
+    def twin():
+        n2, _, _ = make(prog, seed, cost=dict(specs))
+        return n2, [m.alpha for _, m in GS.combiners(n2)], lambda T, hard: n2.update_softmax_options(temperature=T, hard=hard)
     _run_soft(case, seed, res, add, cur, nas, x, [m.alpha for _, m in combs], specs, 'sn',
-              [(1.0, False), (20.0, False), (0.05, False), (1.0, True)], set_opts)
+              [(1.0, False), (20.0, False), (0.05, False), (1.0, True)], set_opts, twin)
     res['sample'] = {'fam': 'S', 'prog': prog, 'combiners': [m.n_branches for _, m in combs]}
 
 
@@ -405,8 +445,15 @@ def _run_M(case, seed, res, add, cur):
 
     def set_opts(T, hard):
         nas.update_softmax_options(temperature=T, hard=hard, gumbel=False, disable_sampling=False)
+
+    def twin():
+        m2, _ = G2.build(prog, seed)
+        n2 = MPS(m2, input_shape=G2.input_shape(prog), qinfo=get_default_qinfo(w_precision=w, a_precision=a), cost=dict(specs),
+                 w_search_type=MPSType.PER_LAYER if mode == 'layer' else MPSType.PER_CHANNEL)
+        return n2, [m.alpha for _, m in GM.selectors(n2)], \
+            lambda T, hard: n2.update_softmax_options(temperature=T, hard=hard, gumbel=False, disable_sampling=False)
     _run_soft(case, seed, res, add, cur, nas, x, [m.alpha for _, m in sels], specs, 'mps-' + mode,
-              [(1.0, False), (20.0, False), (0.05, False), (1.0, True)], set_opts)
+              [(1.0, False), (20.0, False), (0.05, False), (1.0, True)], set_opts, twin)
     res['sample'] = {'fam': 'M', 'prog': prog, 'mode': mode, 'selectors': [n for n, _ in sels], 'metrics': sorted(specs)}
 
 
